@@ -44,7 +44,8 @@ Section C16.
   Theorem C16_user_new_keeps_its_function : forall c k d m uses,
     decorate singular c k = Ok d -> c_lazy c = true ->
     lookup "__new__" (body k) = Some m ->
-    lookup "__new__" (use_all (instantiate c k (d_dict d)) uses) = Some (EUnwrapped m).
+    lookup "__new__" (use_all (instantiate c k (d_dict d)) uses) =
+      Some (if wraps m then EUnwrapped m else EUser m).
   Proof. exact (user_new_unwrapped singular). Qed.
 
   (* The generated constructor, repr and equality are always reachable under
